@@ -138,17 +138,98 @@ def pyGet {α} (l : List α) (i : Int) : Except String α :=
     | none => .error "IndexError"
   else .error "IndexError"
 
-/-- utilities.parse_spaces.  `tuple(set(spaces))` is taken to iterate in ascending order (true for the index
-    ranges the harness generates; mixed negative/positive tuples are outside the compared surface). -/
+/-! #### `tuple(set(spaces))`: CPython's iteration order of a set of small ints (setobject.c: open addressing, table of
+     8 slots growing ×4, LINEAR_PROBES = 9, PERTURB_SHIFT = 5, `hash(i) = i` except `hash(-1) = -2`), transcribed because
+     parse_spaces looks only at the FIRST and LAST element of that order -/
+
+def pyHash (i : Int) : Int := if i = -1 then -2 else i
+
+/-- `(size_t)hash` on a 64-bit build -/
+def toSizeT (h : Int) : Nat := if h ≥ 0 then h.toNat else 2 ^ 64 - (-h).toNat
+
+/-- first slot among `i, i+1, …, i+k` that is unused or already holds `key` (`check = true`), else none -/
+def scanSlots (table : Array (Option Int)) (key : Int) (check : Bool) (i : Nat) : Nat → Option Nat
+  | 0 =>
+    match table.getD i none with
+    | none => some i
+    | some k => if check ∧ k = key then some i else none
+  | k + 1 =>
+    match table.getD i none with
+    | none => some i
+    | some k' => if check ∧ k' = key then some i else scanSlots table key check (i + 1) k
+
+/-- the probe loop of set_add_entry (`check = true`) / set_insert_clean (`check = false`) -/
+def probeLoop (table : Array (Option Int)) (key : Int) (check : Bool) (mask : Nat) : Nat → Nat → Nat → Option Nat
+  | 0, _, _ => none
+  | fuel + 1, i, perturb =>
+    let probes := if i + 9 ≤ mask then 9 else 0
+    match scanSlots table key check i probes with
+    | some slot => some slot
+    | none =>
+      let perturb := perturb / 32
+      probeLoop table key check mask fuel ((i * 5 + 1 + perturb) % (mask + 1)) perturb
+
+def setInsert (table : Array (Option Int)) (key : Int) (check : Bool) : Array (Option Int) × Bool :=
+  let mask := table.size - 1
+  let h := toSizeT (pyHash key)
+  match probeLoop table key check mask 200 (h % (mask + 1)) h with
+  | none => (table, false)
+  | some slot =>
+    match table.getD slot none with
+    | some _ => (table, false)            -- already present
+    | none => (table.setIfInBounds slot (some key), true)
+
+def newTableSize (minused : Nat) : Nat → Nat → Nat
+  | 0, size => size
+  | fuel + 1, size => if size ≤ minused then newTableSize minused fuel (size * 2) else size
+
+/-- set_add_key followed by the resize rule `fill*5 >= mask*3 → resize to used*4` (re-insertion in slot order) -/
+def setAdd (st : Array (Option Int) × Nat) (key : Int) : Array (Option Int) × Nat :=
+  let (table, used) := st
+  let (table, added) := setInsert table key true
+  if !added then (table, used) else
+  let used := used + 1
+  let mask := table.size - 1
+  if used * 5 < mask * 3 then (table, used) else
+  let size := newTableSize (used * 4) 64 8
+  let fresh : Array (Option Int) := Array.replicate size none
+  let table := table.foldl (fun t e => match e with | some k => (setInsert t k false).1 | none => t) fresh
+  (table, used)
+
+/-- `tuple(set(l))` for a tuple of ints -/
+def pySetOrder (l : List Int) : List Int :=
+  ((l.foldl setAdd (Array.replicate 8 none, 0)).1.toList).filterMap id
+
+/-- the raw checks of utilities.parse_spaces on a non-empty tuple: only the first and last element of
+    `tuple(set(spaces))` are compared with the range, and the set must be as long as the tuple -/
+def parseChecks (l : List Int) (n : Nat) : Except String Unit :=
+  let tmp := pySetOrder l
+  if tmp.headD 0 < 0 ∨ tmp.getLastD 0 ≥ n then .error "ValueError" else
+  if tmp.length != l.length then .error "ValueError" else .ok ()
+
+/-- utilities.parse_spaces.  A tuple that passes the raw checks although it contains negative or too large indices
+    (e.g. `(1, -1)`: the set iterates as `(1, -1)`) is handed back by the real code as it is; the model reports it as
+    "accepted-out-of-range" here and the `dirty*` functions below transcribe what the callers then do with it.
+    (The last duplicate test can never fire after `parseChecks`; it keeps the theorems independent of the hash-table
+    simulation.) -/
 def parseSpaces (sp : Spaces) (n : Nat) : Except String (List Nat) :=
   match sp with
   | .none => .ok (List.range n)
   | .scalar i => if i < 0 ∨ i ≥ n then .error "ValueError" else .ok [i.toNat]
   | .list l =>
     if l.isEmpty then .ok [] else
-    if l.any (fun i => i < 0) ∨ l.any (fun i => i ≥ n) then .error "ValueError" else
-    if l.eraseDups.length != l.length then .error "ValueError" else
-    .ok (l.map Int.toNat)
+    match parseChecks l n with
+    | .error e => .error e
+    | .ok _ =>
+      if l.any (fun i => i < 0) ∨ l.any (fun i => i ≥ n) then .error "accepted-out-of-range" else
+      if l.eraseDups.length != l.length then .error "accepted-out-of-range" else
+      .ok (l.map Int.toNat)
+
+/-- the tuple parse_spaces returns when it lets out-of-range entries through (`none`: everything else) -/
+def dirtySpaces (sp : Spaces) (n : Nat) : Option (List Int) :=
+  match sp, parseSpaces sp n with
+  | .list l, .error "accepted-out-of-range" => some l
+  | _, _ => none
 
 /-- `domain.scalar_dvol` -/
 def SubDom.scalarDvol (s : SubDom K) : Except String (Option K) :=
@@ -414,6 +495,118 @@ def sVar [Add K] [Sub K] [Mul K] [OfNat K 0] [OfNat K 1] [Inv K] [NatCast K] [De
         else { f with dt := max f.dt DT.float, val := fun i => (f.val i - m1) * (f.val i - m1) }
       sMean sq
 
+/-! ### what the callers do with a tuple that parse_spaces accepted although it has negative / too large entries
+  (Python resolves negative indices, NumPy refuses duplicate axes, the result domain is computed from the RAW tuple).
+  Transcription only — the property speaks about subsets of sub-domains, no theorem is claimed here. -/
+
+/-- `t[i]` index resolution of a Python tuple of length `n` -/
+def resolveIdx (n : Nat) (i : Int) : Except String Nat :=
+  if 0 ≤ i ∧ i < (n : Int) then .ok i.toNat
+  else if -(n : Int) ≤ i ∧ i < 0 then .ok (i + n).toNat
+  else .error "IndexError"
+
+def resolveAll (n : Nat) : List Int → Except String (List Nat)
+  | [] => .ok []
+  | i :: t =>
+    match resolveIdx n i with
+    | .error e => .error e
+    | .ok j =>
+      match resolveAll n t with
+      | .error e => .error e
+      | .ok r => .ok (j :: r)
+
+/-- `_contraction_helper(op, spaces)`: the axes of the resolved sub-domains are reduced (IndexError for an index outside
+    `[-n, n)`, NumPy's "duplicate value in 'axis'" ValueError); if everything is reduced the result is a scalar Field,
+    otherwise the remaining domain is built from the sub-domains whose RAW index is not listed, which has more axes than
+    the data: "shape mismatch" ValueError -/
+def dirtyContract (f : Fld K) (li : List Int) (dt : DT) (full : K) : Except String (Fld K) :=
+  match resolveAll f.subs.length li with
+  | .error e => .error e
+  | .ok r =>
+    if r.eraseDups.length != r.length then .error "ValueError"
+    else if r.length = f.subs.length then .ok { dom := 0, subs := [], dt := dt, val := fun _ => full }
+    else .error "ValueError"
+
+/-- the loop of Field.weight over such a tuple (a sub-domain listed twice is weighted twice) -/
+def dirtyWeightLoop [Mul K] [OfNat K 0] [OfNat K 1] [Inv K] (subs : List (SubDom K)) (power : Int) :
+    List Int → K → DT → (Idx → K) → Except String (K × DT × (Idx → K))
+  | [], fct, dt, a => .ok (fct, dt, a)
+  | i :: t, fct, dt, a =>
+    match resolveIdx subs.length i with
+    | .error e => .error e
+    | .ok ind =>
+      match (subs.getD ind default).dvol with
+      | .none => .error "AttributeError"
+      | .scalar w => dirtyWeightLoop subs power t (fct * w) dt a
+      | .vector w =>
+        dirtyWeightLoop subs power t fct (max dt DT.float) (fun idx => a idx * ipow (w.getD (idx.getD ind 0) 0) power)
+
+def dirtyWeight [Mul K] [OfNat K 0] [OfNat K 1] [Inv K] [DecidableEq K] (f : Fld K) (power : Int) (li : List Int) :
+    Except String (Fld K) :=
+  match dirtyWeightLoop f.subs power li 1 f.dt f.val with
+  | .error e => .error e
+  | .ok (fct, dt, a) =>
+    let fct := ipow fct power
+    if fct = 1 then .ok { f with dt := dt, val := a }
+    else .ok { f with dt := max dt DT.float, val := fun idx => a idx * fct }
+
+def allMask (f : Fld K) : List Bool := f.subs.map fun _ => true
+
+def dirtySum [Add K] [OfNat K 0] (f : Fld K) (li : List Int) : Except String (Fld K) :=
+  dirtyContract f li (max f.dt DT.int) (sumOver (allIdx f.sizes) f.val)
+
+def dirtyIntegrate [Add K] [Mul K] [OfNat K 0] [OfNat K 1] [Inv K] [DecidableEq K] (f : Fld K) (li : List Int) :
+    Except String (Fld K) :=
+  match scalarWeight f.subs (.list li) with
+  | .error e => .error e
+  | .ok (some swgt) =>
+    match dirtySum f li with
+    | .error e => .error e
+    | .ok res => .ok (smulFloat res swgt)
+  | .ok none =>
+    match dirtyWeight f 1 li with
+    | .error e => .error e
+    | .ok tmp => dirtySum tmp li
+
+def dirtyMean [Add K] [Mul K] [OfNat K 0] [OfNat K 1] [Inv K] [NatCast K] [DecidableEq K] (f : Fld K) (li : List Int) :
+    Except String (Fld K) :=
+  let all := List.range f.subs.length
+  match scalarWeight f.subs (.list li) with
+  | .error e => .error e
+  | .ok (some _) => dirtyContract f li (max f.dt DT.float) (npMean all (allMask f) f.sizes f.val [])
+  | .ok none =>
+    match dirtyWeight f 1 li with
+    | .error e => .error e
+    | .ok tmp =>
+      match dirtySum tmp li with
+      | .error e => .error e
+      | .ok s =>
+        match totalVolume tmp.subs (.list li) with
+        | .error e => .error e
+        | .ok tv => .ok (smulFloat s ((1 : K) * tv⁻¹))
+
+/-- var / std: the uniform path is NumPy's var over all axes; on the other path `ContractionOperator(domain, spaces)`
+    expects the mean on the sub-domains whose RAW index is not listed, which the scalar mean is not: ValueError -/
+def dirtyVar [Add K] [Sub K] [Mul K] [OfNat K 0] [OfNat K 1] [Inv K] [NatCast K] [DecidableEq K] (nsq : K → K)
+    (f : Fld K) (li : List Int) : Except String (Fld K) :=
+  let all := List.range f.subs.length
+  match scalarWeight f.subs (.list li) with
+  | .error e => .error e
+  | .ok (some _) => dirtyContract f li DT.float (npVar nsq all (allMask f) f.sizes f.val [])
+  | .ok none =>
+    match dirtyMean f li with
+    | .error e => .error e
+    | .ok _ => .error "ValueError"
+
+def dirtyVdot [Add K] [Mul K] [OfNat K 0] (conj : K → K) (f g : Fld K) (li : List Int) : Except String (Fld K) :=
+  if g.dom ≠ f.dom then .error "ValueError" else
+  let full := sumOver (allIdx f.sizes) fun i => conj (f.val i) * g.val i
+  if li.length = f.subs.length then
+    .ok { dom := 0, subs := [], dt := max (max f.dt g.dt) DT.float, val := fun _ => full }
+  else
+    let cf : Idx → K := if f.dt = DT.complex then fun i => conj (f.val i) else f.val
+    dirtyContract f li (max (max f.dt g.dt) DT.int) (sumOver (allIdx f.sizes) fun i => cf i * g.val i)
+
 /-! ### MultiField: sorted keys, one leaf Field per key, identity of the MultiDomain object -/
 
 structure MFld (K : Type) where
@@ -503,6 +696,174 @@ def mnorm2Sq [Add K] [OfNat K 0] (nsq : K → K) (a : MFld K) : K := sumOver a.l
 /-- MultiField.norm(inf) = max leafnorm -/
 def mnormInf [OfNat K 0] (mx : K → K → K) (ab : K → K) (a : MFld K) : K := maxOver mx a.leaves fun kv => normInf mx ab kv.2
 
+/-! ### element-wise operators of Field._binary_op / unary operators / clip (the NumPy ufunc semantics on one entry) -/
+
+/-- the twelve binary operators installed on Field and MultiField -/
+inductive BinOp where
+  | add | sub | mul | truediv | floordiv | pow | lt | le | gt | ge | eq | ne
+deriving DecidableEq, Repr
+
+/-- what NumPy provides on the element type beyond the field operations -/
+structure ElemOps (K : Type) where
+  /-- `<` (lexicographic on complex numbers) -/
+  lt : K → K → Bool
+  /-- `<=` -/
+  le : K → K → Bool
+  /-- `floor_divide` on real values -/
+  floordiv : K → K → K
+  /-- the exponent as a natural number (generated exponents are small non-negative integers) -/
+  expNat : K → Nat
+  /-- the value is a negative real number -/
+  isNeg : K → Bool
+  /-- the value is not a non-negative integer (exponents the model does not evaluate) -/
+  notNatVal : K → Bool
+  conj : K → K
+  re : K → K
+  im : K → K
+
+def ofB [OfNat K 0] [OfNat K 1] (b : Bool) : K := if b then 1 else 0
+
+/-- one entry of the result of `a <op> b` -/
+def evalBin [Add K] [Sub K] [Mul K] [Inv K] [OfNat K 0] [OfNat K 1] [DecidableEq K] (E : ElemOps K) :
+    BinOp → K → K → K
+  | .add, a, b => a + b
+  | .sub, a, b => a - b
+  | .mul, a, b => a * b
+  | .truediv, a, b => a * b⁻¹
+  | .floordiv, a, b => E.floordiv a b
+  | .pow, a, b => npow a (E.expNat b)
+  | .lt, a, b => ofB (E.lt a b)
+  | .le, a, b => ofB (E.le a b)
+  | .gt, a, b => ofB (E.lt b a)
+  | .ge, a, b => ofB (E.le b a)
+  | .eq, a, b => ofB (decide (a = b))
+  | .ne, a, b => ofB (decide (a ≠ b))
+
+/-- dtype kind of the result (NumPy promotion on the generated kinds; a Python scalar enters with its own kind) -/
+def binDt : BinOp → DT → DT → DT
+  | .add, x, y | .sub, x, y | .mul, x, y | .floordiv, x, y | .pow, x, y => max x y
+  | .truediv, x, y => max (max x y) DT.float
+  | _, _, _ => DT.bool
+
+/-- what NumPy refuses before computing anything (error kinds); "model-unsupported" marks inputs the model does not
+    evaluate (division by zero, non-integer or negative exponents of non-integers) — never generated -/
+def binGuard [OfNat K 0] [DecidableEq K] (E : ElemOps K) (o : BinOp) (dta dtb : DT) (bvals : List K) : Option String :=
+  if o = .floordiv ∧ (dta = DT.complex ∨ dtb = DT.complex) then some "TypeError"
+  else if o = .pow ∧ dta ≤ DT.int ∧ dtb ≤ DT.int ∧ bvals.any E.isNeg then some "ValueError"
+  else if o = .pow ∧ bvals.any E.notNatVal then some "model-unsupported"
+  else if (o = .truediv ∨ o = .floordiv) ∧ bvals.any (fun b => decide (b = 0)) then some "model-unsupported"
+  else none
+
+/-- Field.<op>(other: Field) (`rev`: the reflected operator `__r<op>__`, i.e. `other <op> self`):
+    identity check of the domains, NumPy's own argument checks, then entry by entry -/
+def fieldBin [Add K] [Sub K] [Mul K] [Inv K] [OfNat K 0] [OfNat K 1] [DecidableEq K] (E : ElemOps K)
+    (o : BinOp) (rev : Bool) (f g : Fld K) : Except String (Fld K) :=
+  if g.dom ≠ f.dom then .error "ValueError" else
+  let a := if rev then g else f
+  let b := if rev then f else g
+  match binGuard E o a.dt b.dt ((allIdx b.sizes).map b.val) with
+  | some e => .error e
+  | none =>
+    if rev then binop (fun x y => evalBin E o y x) (fun x y => binDt o y x) f g
+    else binop (evalBin E o) (binDt o) f g
+
+/-- Field.<op>(other: Python scalar of kind `cdt`) -/
+def fieldBinScalar [Add K] [Sub K] [Mul K] [Inv K] [OfNat K 0] [OfNat K 1] [DecidableEq K] (E : ElemOps K)
+    (o : BinOp) (rev : Bool) (f : Fld K) (c : K) (cdt : DT) : Except String (Fld K) :=
+  let g : Option String :=
+    if rev then binGuard E o cdt f.dt ((allIdx f.sizes).map f.val) else binGuard E o f.dt cdt [c]
+  match g with
+  | some e => .error e
+  | none =>
+    if rev then .ok (binopScalar (fun x y => evalBin E o y x) (fun x y => binDt o y x) f c cdt)
+    else .ok (binopScalar (evalBin E o) (binDt o) f c cdt)
+
+/-- Field.unite(other) = `self + other` -/
+def funite [Add K] [Sub K] [Mul K] [Inv K] [OfNat K 0] [OfNat K 1] [DecidableEq K] (E : ElemOps K)
+    (f g : Fld K) : Except String (Fld K) := fieldBin E .add false f g
+
+/-- Field.flexible_addsub(other, neg) = `self - other if neg else self + other` -/
+def fflex [Add K] [Sub K] [Mul K] [Inv K] [OfNat K 0] [OfNat K 1] [DecidableEq K] (E : ElemOps K)
+    (f g : Fld K) (neg : Bool) : Except String (Fld K) := if neg then fieldBin E .sub false f g else fieldBin E .add false f g
+
+/-- unary operators; `abs` is separate (square root for complex data) -/
+inductive UnOp where
+  | neg | pos | conjugate | real | imag
+deriving DecidableEq, Repr
+
+/-- `conjugate`, `real`, `+x` hand back the very same Field object when there is nothing to do -/
+def unSame : UnOp → DT → Bool
+  | .pos, _ => true
+  | .conjugate, d => d != DT.complex
+  | .real, d => d != DT.complex
+  | _, _ => false
+
+def fieldUn [Neg K] (E : ElemOps K) (o : UnOp) (f : Fld K) : Except String (Fld K) :=
+  match o with
+  | .neg => .ok (unop (fun x => -x) id f)
+  | .pos => .ok f
+  | .conjugate => if f.dt = DT.complex then .ok (unop E.conj id f) else .ok f
+  | .real => if f.dt = DT.complex then .ok (unop E.re (fun _ => DT.float) f) else .ok f
+  | .imag => if f.dt = DT.complex then .ok (unop E.im (fun _ => DT.float) f) else .error "ValueError"
+
+/-- Field.__abs__: `ab` is `|·|` (a real number also for complex data) -/
+def fieldAbs (ab : K → K) (f : Fld K) : Fld K :=
+  unop ab (fun d => if d = DT.complex then DT.float else d) f
+
+/-- `np.clip(x, lo, hi)` = `minimum(maximum(x, lo), hi)`; a missing bound does nothing -/
+def clipVal (E : ElemOps K) (lo hi : Option K) (x : K) : K :=
+  let y := match lo with | some l => if E.lt x l then l else x | none => x
+  match hi with | some h => if E.lt h y then h else y | none => y
+
+/-- Field.clip(a_min, a_max) with Python scalar bounds of kinds `ldt`, `hdt` -/
+def fieldClip (E : ElemOps K) (f : Fld K) (lo hi : Option K) (ldt hdt : DT) : Fld K :=
+  { f with dt := max f.dt (max (if lo.isSome then ldt else 0) (if hi.isSome then hdt else 0)),
+           val := fun i => clipVal E lo hi (f.val i) }
+
+/-! ### all / any / size -/
+
+/-- Field.s_all: every entry is non-zero -/
+def sAll [OfNat K 0] [DecidableEq K] (f : Fld K) : Bool := (allIdx f.sizes).all fun i => decide (f.val i ≠ 0)
+/-- Field.s_any -/
+def sAny [OfNat K 0] [DecidableEq K] (f : Fld K) : Bool := (allIdx f.sizes).any fun i => decide (f.val i ≠ 0)
+
+/-- `x.all(axis=…)` -/
+def contractAll [OfNat K 0] [OfNat K 1] [DecidableEq K] (mask : List Bool) (sizes : List Nat) (x : Idx → K) : Idx → K :=
+  fun o => ofB ((allIdx (sel true mask sizes)).all fun c => decide (x (merge mask o c) ≠ 0))
+/-- `x.any(axis=…)` -/
+def contractAny [OfNat K 0] [OfNat K 1] [DecidableEq K] (mask : List Bool) (sizes : List Nat) (x : Idx → K) : Idx → K :=
+  fun o => ofB ((allIdx (sel true mask sizes)).any fun c => decide (x (merge mask o c) ≠ 0))
+
+/-- Field.all(spaces) -/
+def fall [OfNat K 0] [OfNat K 1] [DecidableEq K] (f : Fld K) (sp : Spaces) : Except String (Fld K) :=
+  match parseSpaces sp f.subs.length with
+  | .error e => .error e
+  | .ok l => .ok (contractFld f l DT.bool contractAll)
+/-- Field.any(spaces) -/
+def fany [OfNat K 0] [OfNat K 1] [DecidableEq K] (f : Fld K) (sp : Spaces) : Except String (Fld K) :=
+  match parseSpaces sp f.subs.length with
+  | .error e => .error e
+  | .ok l => .ok (contractFld f l DT.bool contractAny)
+
+/-- MultiField.s_all: the loop returns False at the first leaf that is not all-true -/
+def msAll [OfNat K 0] [DecidableEq K] (a : MFld K) : Bool := a.leaves.all fun kv => sAll kv.2
+/-- MultiField.s_any -/
+def msAny [OfNat K 0] [DecidableEq K] (a : MFld K) : Bool := a.leaves.any fun kv => sAny kv.2
+/-- MultiField.size = sum of the leaf domain sizes -/
+def msize (a : MFld K) : Nat := (a.leaves.map fun kv => prodNat kv.2.sizes).sum
+
+/-- SPECIFICATION side: the MultiField `α·a + b` leaf by leaf (used to state linearity of MultiField.vdot) -/
+def mlin [Add K] [Mul K] (α : K) (a b : MFld K) : MFld K :=
+  { a with leaves := List.zipWith (fun x y => (x.1, { x.2 with val := fun i => α * x.2.val i + y.2.val i })) a.leaves b.leaves }
+
+/-- SPECIFICATION side: dot product of two MultiFields as the sum of the leaf dot products -/
+def mvdVal [Add K] [Mul K] [OfNat K 0] (conj : K → K) (a b : MFld K) : K :=
+  sumOver (a.leaves.zip b.leaves) fun p => sumOver (allIdx p.1.2.sizes) fun i => conj (p.1.2.val i) * p.2.2.val i
+
+/-- SPECIFICATION side: the leaf stored under a key (`MultiField.__getitem__`) -/
+def lookupLeaf (k : String) (l : List (String × Fld K)) : Option (Fld K) :=
+  (l.find? fun kv => kv.1 == k).map (·.2)
+
 end Ops
 
 /-! ### the driver's scalar type: complex numbers with exact rational parts -/
@@ -529,6 +890,17 @@ def nsq (a : CRat) : CRat := ⟨a.normSq, 0⟩
 /-- NumPy orders complex numbers lexicographically -/
 def lt (a b : CRat) : Bool := a.re < b.re || (a.re == b.re && a.im < b.im)
 def le (a b : CRat) : Bool := a.re < b.re || (a.re == b.re && a.im ≤ b.im)
+/-- NumPy's element operations on exact complex rationals -/
+def elemOps : ElemOps CRat where
+  lt := lt
+  le := le
+  floordiv a b := ofRat ((a.re / b.re).floor : Int)
+  expNat b := b.re.num.toNat
+  isNeg b := b.re < 0
+  notNatVal b := b.im != 0 || b.re.den != 1 || b.re < 0
+  conj := conj
+  re a := ⟨a.re, 0⟩
+  im a := ⟨a.im, 0⟩
 end CRat
 
 end NiftyVerif.FieldM
